@@ -21,14 +21,16 @@ RULE = ("configs: random trees (depth <= 4, fan-out <= 4, at most ~40 lines, ind
         "oracle still run): the wo-child list form when the second character of p is not a valid expression (re.error, F07). "
         "regex_flags is not generated (not one of the property's flags). "
         "ARGUMENT-FORM STREAMS (2 more queries per config, channel searchf, model Ccp.SearchForms): every expression may be written as a compiled "
-        "re.Pattern, as a BaseCfgLine of this parse or a foreign one (linenum, text), be omitted (None) or ill-typed (int); list arguments also as a "
+        "re.Pattern (a third of those queries compile with re.IGNORECASE and write the expression in upper case, so the flags of the Pattern must "
+        "survive wherever the code re-compiles it, e.g. exactmatch: the repair of finding FC04e), as a BaseCfgLine of this parse or a foreign one (linenum, text), be omitted (None) or ill-typed (int); list arguments also as a "
         "tuple, lists of the wrong length / mixed element kinds; find_object_branches(regex_groups=True) with capture-group expressions "
         "((p), (p)|(zz) with a non-participating group, (\\S+)\\s*(\\S*)) x empty_branches x reverse; BaseCfgLine.re_search and "
         "BaseCfgLine.re_search_children called on every line; and ~25% of these queries are asked while an uncommitted ConfigList.insert() is "
         "pending (auto_commit=False): every API must refuse (NotImplementedError, or the error of an argument check that precedes the guard). "
         "The exception class of every rejection is compared with the model (ValueError, TypeError, IndexError, InvalidParameters, "
-        "NotImplementedError, typeguard's TypeCheckError where the first element decides). The oracle judges compiled patterns like the str, "
-        "tuples like lists, regex_groups rows against the brute-force chains, and the refusal while pending; for BaseCfgLine / missing / ill-typed "
+        "NotImplementedError, typeguard's TypeCheckError where the first element decides). The oracle judges compiled patterns like the str (under the Pattern's flags; with exactmatch the "
+        "whole-line reading -- before the repair of FC04e the code formatted the repr of the Pattern and matched nothing), "
+        "tuples like lists, regex_groups rows against the brute-force chains (complete chains only unless empty_branches: the repair of FC04f), and the refusal while pending; for BaseCfgLine / missing / ill-typed "
         "arguments the property does not say which lines are right (only: sorted, unique, lines of the config) and the answer is compared with the model only. "
         "Half of all cases leave the keyword arguments that sit at their documented default (recurse / all_children / empty_branches / reverse) "
         "out of the call, so the defaults of the signatures are observed as well. "
@@ -42,8 +44,9 @@ LEVEL_TEXT = ("Theorems (Lean 4, all trees, all oracle rows): find_objects = asc
               "Argument handling (Ccp.SearchForms, all arguments and flags): with str arguments and nothing pending it adds nothing (forms_str_agree); a compiled re.Pattern answers like the str "
               "with the same row wherever accepted and is otherwise refused, never mis-read (pattern_form_agrees / pattern_form_refused); a tuple answers like the list (tuple_form_agrees); a BaseCfgLine "
               "parentspec is read as its text, find_objects(obj) returns exactly the line equal to obj (line_as_parentspec, findObjects_line_spec); while an insert is pending no API answers "
-              "(pending_refused); obj.re_search / obj.re_search_children = the row / the matching direct or any-depth children (objSearch_spec); regex_groups=True = one row of tuple cells per maximal "
-              "partial chain, capture groups or the line itself per cell (branches_groups_partial; the full statement fails for empty_branches=False: finding FC04f). "
+              "(pending_refused); obj.re_search / obj.re_search_children = the row / the matching direct or any-depth children (objSearch_spec); regex_groups=True = one row of tuple cells per complete chain "
+              "(empty_branches=False) or per maximal partial chain (empty_branches=True), capture groups or the line itself per cell (branches_groups, full statement; it was "
+              "branches_groups_partial -- padded rows for either flag value -- before finding FC04f was repaired in /repo). "
               "The model is tied to the code by differential runs (tree dump and answer of every query compared).")
 LEVEL_NOTE = ("Trusted: Lean kernel, standard axioms, the harness. Python's re is an oracle parameter (rows), universally quantified in the theorems and computed with re "
               "directly in the runs. The tree model is shared with C01-C03; the forest invariant is a hypothesis here (proved for parse by C03).")
@@ -82,8 +85,9 @@ def ws_pattern(p):
     return re.sub(r"\s+", lambda m: r"\s+", p)
 
 
-def reading(p, flags):
-    """-> predicate text -> bool for expression p under the flags of the request"""
+def reading(p, flags, icase=False):
+    """-> predicate text -> bool for expression p under the flags of the request (icase: p stands for
+    re.compile(p, re.IGNORECASE); a compiled expression is never escaped)"""
     exact, ws, esc = "a" in flags, "w" in flags, "x" in flags
     if esc and not ws:
         return (lambda t: t == p) if exact else (lambda t: p in t)
@@ -93,14 +97,14 @@ def reading(p, flags):
         rx = ws_pattern(p)
     else:
         rx = p
-    cre = re.compile(rx)
+    cre = re.compile(rx, re.IGNORECASE if icase else 0)
     if exact:
         return lambda t: cre.fullmatch(t) is not None
     return lambda t: cre.search(t) is not None
 
 
-def row_of(p, flags, texts):
-    f = reading(p, flags)
+def row_of(p, flags, texts, icase=False):
+    f = reading(p, flags, icase)
     return [bool(f(t)) for t in texts]
 
 
@@ -158,7 +162,7 @@ def mk(cfg, q, origin="gen"):
 # kinds: s str, p re.compile(..), o a BaseCfgLine, n None (argument omitted), i an int
 LIST_APIS = ("fol", "br", "pl", "cl", "wl")
 MODEL_OP = {"fol": "fo", "cl": "c2", "wl": "w2"}
-FORM_KEYS = ("kinds", "tuple", "pend", "onum")
+FORM_KEYS = ("kinds", "tuple", "pend", "onum", "icase")
 
 
 def kinds_of(case):
@@ -189,7 +193,9 @@ def code_expr(kind, pat, flags, api):
         return None                              # the flag reading (after FC04a-d the code's composition is the property's)
     if kind == "p":
         if "a" in flags and api in ("fo", "fol"):
-            return "^(?:%s)$" % re.compile(pat)  # _find_line_OBJ formats the Pattern object itself (FC04e)
+            # _find_line_OBJ formats the expression text of the Pattern and keeps its flags (before the repair of FC04e it
+            # formatted the Pattern object itself: "^(?:%s)$" % re.compile(pat))
+            return "^(?:%s)$" % pat
         return pat
     if kind == "o" and api in ("c2", "w2"):       # elsewhere a BaseCfgLine is compared, not evaluated
         return ws_pattern(pat) if "w" in flags else pat
@@ -207,6 +213,8 @@ def mkf(cfg, q, origin="gen"):
         "lines": list(cfg["lines"]), "api": api, "pats": pats, "flags": flags, "_origin": origin, "req": None,
         "kinds": kinds, "tuple": bool(q.get("tuple")), "pend": bool(q.get("pend")), "onum": int(q.get("onum") or 0),
     }
+    if q.get("icase") and "p" in kinds:
+        case["icase"] = True                     # every compiled expression of the query is re.compile(p, re.IGNORECASE)
     if case["pend"]:
         case["auto_commit"] = False
         case["pend_at"] = int(q.get("pend_at") or 0)
@@ -226,7 +234,7 @@ def mkf(cfg, q, origin="gen"):
             elif ce is None:
                 rows.append([False] * len(kept))
             else:
-                cre = re.compile(ce)
+                cre = re.compile(ce, re.IGNORECASE if (kind == "p" and case.get("icase")) else 0)
                 rows.append([cre.search(t) is not None for t in kept])
     except (re.error, RecursionError, OverflowError):
         return case                              # the code raises re.error: not sent to the model
@@ -499,6 +507,12 @@ def rand_form_query(rng, cfg, kept, ch):
         pats = [text if k == "o" else p for k, p in zip(kinds, pats)]
     pats = ["" if k in "ni" else p for k, p in zip(kinds, pats)]
     q = dict(q, pats=pats, kinds="".join(kinds), tuple=tup, onum=onum)
+    if "p" in kinds and (sum(len(p) for p in pats) + len(kept)) % (2 if (api in ("fo", "fol") and "a" in q["flags"]) else 3) == 0:
+        # a third of the queries with a compiled expression (half of the exactmatch ones) compile it with re.IGNORECASE and write it in upper case where
+        # that is the same expression (no backslash escape, no group name / inline flag): the flags of a Pattern must
+        # survive wherever the code re-compiles it (exactmatch)
+        up = [p.upper() if (k == "p" and "\\" not in p and "(?" not in p) else p for k, p in zip(kinds, pats)]
+        q.update(icase=True, pats=up)
     if rng.random() < 0.2 or not is_form(q):
         q.update(pend=True, pend_at=rng.randrange(len(kept) + 1), pend_text=rng.choice(["zz", " zz", "  " + rng.choice(POOL), ""]))
     return q
@@ -602,7 +616,7 @@ def mk_arg(parse, case, kind, pat):
     if kind == "s":
         return pat
     if kind == "p":
-        return re.compile(pat)
+        return re.compile(pat, re.IGNORECASE) if case.get("icase") else re.compile(pat)
     if kind == "o":
         return the_line(parse, case, pat)
     if kind == "n":
@@ -817,7 +831,7 @@ def expected(case, parents, children, texts, flags=None, pats=None):
         return None                              # a tuple is documented for find_object_branches and find_child_objects only
     rfl = fl if api not in ("rc", "hc", "br", "os", "oc") else ""
     try:
-        ms = [row_of(p, rfl, texts) for p in pats]
+        ms = [row_of(p, rfl, texts, bool(case.get("icase")) and k == "p") for k, p in zip(kinds, pats)]
     except re.error:
         return None
     rev = "r" in fl
@@ -926,7 +940,7 @@ def oracle(case, ans):
     if api in ("fo", "fol") and "a" in fl and "p" in kinds_of(case) and len(case["pats"]) == 1:
         # what `"^(?:%s)$" % linespec` is for a compiled linespec
         try:
-            cre = re.compile("^(?:%s)$" % re.compile(case["pats"][0]))
+            cre = re.compile("^(?:%s)$" % mk_arg(None, case, "p", case["pats"][0]))
             hits = [i for i, t in enumerate(texts) if cre.search(t)]
             if res == wire.enc_nats(hits[::-1] if "r" in fl else hits):
                 diag = "exactmatch-formats-compiled-pattern"
@@ -972,10 +986,6 @@ def known_id(case, failure):
     tag = failure[1:failure.index("]")] if failure.startswith("[") else ""
     if tag == "wo-child-list-uses-p1" and api == "wl" and len(case["pats"]) == 2:
         return "F07"
-    if tag == "exactmatch-formats-compiled-pattern" and api in ("fo", "fol") and "a" in case["flags"] and "p" in kinds_of(case):
-        return "FC04e"
-    if tag == "regex-groups-keeps-partial-branches" and api == "br" and "g" in case["flags"] and "e" not in case["flags"]:
-        return "FC04f"
     return None
 
 
@@ -988,6 +998,8 @@ def describe(case):
     d = {k: case[k] for k in ("syntax", "ignore_blank", "delims", "api", "pats", "flags")}
     if is_form(case):
         d["argument_kinds"] = kinds_of(case) + " (s str, p re.compile, o BaseCfgLine, n None, i int)"
+        if case.get("icase"):
+            d["compiled_with"] = "re.IGNORECASE"
         d["tuple"], d["insert_pending"], d["line_argument_linenum"] = case.get("tuple"), case.get("pend"), case.get("onum")
     if case.get("omit"):
         d["keyword_arguments_at_their_default"] = "left out of the call"
@@ -1006,6 +1018,8 @@ def buckets(case, ans):
             out.append("form:tuple")
         if case.get("pend"):
             out.append("form:insert-pending")
+        if case.get("icase"):
+            out.append("form:compiled-ignorecase")
     if not case["flags"]:
         out.append("flag:none")
     try:
